@@ -107,6 +107,16 @@ class Dates:
                 tot = tot + v.t * self.UNITS[name]
             ex.use('axiom:datetime.timedelta(days,seconds,..) = normalised (days, microseconds)')
             return td_norm(0, tot)
+        if fname in ('min', 'max') and len(args) == 2 and not kwargs and args[0].kind == args[1].kind and args[0].kind in ('dt', 'td'):
+            a, b = args
+            first = lex_le(a, b) if fname == 'min' else lex_le(b, a)
+            return SV(a.kind, If(first, a.t, b.t), us=If(first, a.us, b.us))
+        if fname == 'datetime.datetime.fromordinal' and len(args) == 1 and not kwargs and args[0].kind == 'int':
+            ex.raise_if(st, Not(And(1 <= args[0].t, args[0].t <= 3652059)), 'ValueError')
+            ex.use('axiom:datetime.datetime.fromordinal(i) is midnight of the day with proleptic Gregorian ordinal i')
+            return DT(args[0].t, 0)
+        if fname in ('datetime.datetime', 'datetime') and set(kwargs) == {'tzinfo'} and kwargs['tzinfo'].kind == 'none':
+            kwargs = {}          # tz-naive: tzinfo = None is the default
         if fname in ('datetime.datetime', 'datetime'):
             if not (3 <= len(args) <= 7) or kwargs or any(a.kind != 'int' for a in args):
                 raise OutOfSubset('datetime.datetime%s' % ([a.kind for a in args],))
@@ -168,6 +178,8 @@ class Dates:
             return I(wd(recv.t))
         if recv.kind == 'dt' and mname == 'toordinal' and not args:
             return I(recv.t)
+        if recv.kind == 'dt' and mname == 'replace' and not args and set(kwargs) == {'tzinfo'} and kwargs['tzinfo'].kind == 'none':
+            return recv          # tz-naive datetimes only: replace(tzinfo=None) is the identity
         if recv.kind == 'td' and mname == 'total_seconds':
             raise OutOfSubset('float total_seconds')
         return NotImplemented
@@ -184,6 +196,8 @@ class Dates:
                       'microsecond': us % 10 ** 6}[name])
         if recv.kind == 'td' and name == 'days':
             return I(recv.t)
+        if recv.kind == 'dt' and name == 'tzinfo':
+            return NONE          # tz-naive datetimes only (class docstring)
         return NotImplemented
 
     def truth(self, ex, st, v):
